@@ -10,7 +10,7 @@
 From Coq Require Import List Bool String ZArith NArith Lia.
 From KV Require Import Eqb AL Str.
 From KV.Model Require Import MMergeRemap.
-From KV.Proofs Require Import PMergeRemap.
+From KV.Proofs Require Import PMergeRemap PMergeRemapSession.
 Import ListNotations.
 Local Open Scope string_scope.
 Local Open Scope list_scope.
@@ -203,6 +203,84 @@ Proof.
       (split; [intros k t; destruct k; solve_tab|intros k t; destruct k; solve_tab]).
   - vm_compute. reflexivity.
   - eexists. split; [vm_compute; reflexivity|]. cbn. repeat split.
+Qed.
+
+(* --- 4. histories: successive merges of one process that are handed the SAME skip list object (a Python list).
+        [session sl steps] threads the list through the calls, each call returning the list as it leaves it.
+        Every merge of every session is the merge of its own inputs under the list the caller built, whatever was
+        merged before, and the list is never altered. *)
+Theorem C10_session_exact : forall sl steps,
+  session sl steps = map (fun ds => (merge_remap (skipset_of sl) ds, sl)) steps.
+Proof. exact session_exact. Qed.
+Print Assumptions C10_session_exact.
+
+Theorem C10_session_history_independent : forall sl pre ds post,
+  nth_error (session sl (pre ++ ds :: post)) (List.length pre) = Some (merge_remap (skipset_of sl) ds, sl).
+Proof. exact session_nth. Qed.
+Print Assumptions C10_session_history_independent.
+
+Theorem C10_skip_list_read_only : forall sl steps r, In r (session sl steps) -> snd r = sl.
+Proof. exact session_skip_unchanged. Qed.
+Print Assumptions C10_skip_list_read_only.
+
+(* hence, in any session, a part the caller did not list is the disjoint union of the renamed tables of THAT merge's
+   inputs (records of kind k and trajectories shown; the other parts follow from C10_remap_exact alike) *)
+Theorem C10_session_parts_exact : forall sl pre ds post r sl' m, wf_inputs ds ->
+  nth_error (session sl (pre ++ ds :: post)) (List.length pre) = Some (r, sl') -> r = Ok m ->
+  sl' = sl /\
+  (~ In SkTraj sl -> exists t, ren_tabs rn_traj (map d_traj ds) (ids_of ds) = Some t /\ m_traj m = none_if_empty t) /\
+  (forall k, ~ In (SkRec2 k) sl ->
+     exists t, ren_tabs rn2 (map (fun d => d_rec2 d k) ds) (ids_of ds) = Some t /\ m_rec2 m k = none_if_empty t) /\
+  (forall k, ~ In (SkRec3 k) sl ->
+     exists t, ren_tabs rn3 (map (fun d => d_rec3 d k) ds) (ids_of ds) = Some t /\ m_rec3 m k = none_if_empty t).
+Proof.
+  intros sl pre ds post r sl' m W E ->. rewrite session_nth in E. injection E as E <-.
+  destruct (C10_remap_exact _ _ _ W E) as (_ & _ & T & R2 & R3). cbn in T, R2, R3.
+  split; [reflexivity|]. split; [|split].
+  - intros N. destruct (sl_has SkTraj sl) eqn:H; [apply sl_has_In in H; contradiction|exact T].
+  - intros k N. specialize (R2 k). destruct (sl_has (SkRec2 k) sl) eqn:H; [apply sl_has_In in H; contradiction|exact R2].
+  - intros k N. specialize (R3 k). destruct (sl_has (SkRec3 k) sl) eqn:H; [apply sl_has_In in H; contradiction|exact R3].
+Qed.
+Print Assumptions C10_session_parts_exact.
+
+(* the list is consulted by membership only: order and repetitions are irrelevant, and naming one more part removes
+   exactly that part from the result (None), every other part and the success of the merge being untouched *)
+Theorem C10_skip_list_as_set : forall sl sl' ds, (forall y, In y sl <-> In y sl') ->
+  result_ext (merge_remap (skipset_of sl) ds) (merge_remap (skipset_of sl') ds).
+Proof. exact skip_list_as_set. Qed.
+Print Assumptions C10_skip_list_as_set.
+
+Theorem C10_skipping_touches_only_that_part : forall sl x ds m, merge_remap (skipset_of sl) ds = Ok m ->
+  exists m', merge_remap (skipset_of (x :: sl)) ds = Ok m' /\
+    m_sensors m' = m_sensors m /\ m_rigs m' = m_rigs m /\
+    m_traj m' = (if skipname_eqb SkTraj x then None else m_traj m) /\
+    (forall k, m_rec2 m' k = if skipname_eqb (SkRec2 k) x then None else m_rec2 m k) /\
+    (forall k, m_rec3 m' k = if skipname_eqb (SkRec3 k) x then None else m_rec3 m k).
+Proof. exact skip_one_more. Qed.
+Print Assumptions C10_skipping_touches_only_that_part.
+
+(* why these histories have to be RUN: within one call, treating the parts that no input has as skipped
+   ([mark_absent]: their types appended to the list) changes nothing — same failure, same merged parts — so no
+   single merge can tell a merge_remap that appends to its caller's list from one that does not ... *)
+Theorem C10_absent_parts_as_good_as_skipped : forall sl ds,
+  result_ext (merge_remap (skipset_of (mark_absent sl ds)) ds) (merge_remap (skipset_of sl) ds).
+Proof. exact mark_absent_one_call. Qed.
+Print Assumptions C10_absent_parts_as_good_as_skipped.
+
+(* ... while in a session it loses data: first a merge of a dataset without trajectories, then, with the same
+   (empty) list, a merge of a dataset that has them.  The modelled code keeps the pose; the marking variant has put
+   Trajectories into the caller's list during the first call and drops it. *)
+Lemma C10_marking_variant_refuted :
+  let d0 := mkD (Some [("cam", 100%Z)]) None None ex_no2 ex_no3 in
+  let d1 := mkD (Some [("cam", 110%Z)]) None (Some [((5%Z, "cam"), 310%Z)]) ex_no2 ex_no3 in
+  (exists m, nth_error (session [] [[d0]; [d1]]) 1 = Some (Ok m, []) /\ m_traj m = Some [((5%Z, "sensor0"), 310%Z)]) /\
+  (exists m sl, nth_error (session_marking [] [[d0]; [d1]]) 1 = Some (Ok m, sl) /\ m_traj m = None /\ In SkTraj sl) /\
+  (exists m, fst (merge_remap_call_marking [] [d1]) = Ok m /\ m_traj m = Some [((5%Z, "sensor0"), 310%Z)]).
+Proof.
+  cbv zeta. split; [|split].
+  - eexists. split; [vm_compute; reflexivity|reflexivity].
+  - eexists _, _. split; [vm_compute; reflexivity|]. split; [reflexivity|]. cbn. auto.
+  - eexists. split; [vm_compute; reflexivity|reflexivity].
 Qed.
 
 (* --- the code before the repair is refuted: the missing tables were dropped before pairing tables with
